@@ -1,6 +1,7 @@
 import Engeom.Driver.C18
 import Engeom.Driver.C12
 import Engeom.Driver.C14
+import Engeom.Driver.Curve
 import Engeom.Driver.C16
 import Engeom.Driver.C17
 
@@ -9,6 +10,7 @@ def dispatch (op : String) (args : List String) : Option String :=
   | "angle" | "interval" => DrvC18.handle op args
   | "dev" | "tolmap" | "cloud" => DrvC16.handle op args
   | "domain" => if op = "domain.index_of" then DrvC16.handle op args else DrvC17.handle op args
+  | "curve" => DrvCurve.handle op args
   | "select" => DrvC14.handle op args
   | "topo" => DrvC12.handle op args
   | "series" => DrvC17.handle op args
